@@ -1,4 +1,5 @@
 import QuillModel.Backend.ConsProofsReclaim
+import QuillModel.Backend.ConsProofsQuiesce
 import QuillModel.Backend.ConsProofsUnplaced
 import QuillModel.Props.C03
 /-!
@@ -200,18 +201,19 @@ theorem C08_cleanup_after_check (s : BSt) (j : Nat)
     (s.th j).removed = true ∨ ((cleanupContexts (checkFailures (fun x _ => x) s)).th j).fail = 0 :=
   cleanup_after_check s j hr
 
-/- Full statement wanted: "at quiescence, after an idle poll, `fail = 0` for every registered context, hence
-   `Σ discarded = reported`". Proved: the idle branch of `_poll` (everything after the read pass found nothing), run
-   with an injection runner that takes no frontend step (e.g. `runInj []`), from a state whose cache covers the
-   registry, ends with `fail = 0` for every context still registered; `poll inj s` IS that branch when the read pass
-   counted no event (`poll_idle`). Missing: that the read pass itself (`populate`, which refreshes the cache) leaves the
-   cache covering the registry when no thread registers during it — an invariant about `newFlag` not proved here. -/
-/-- **The idle pass drains the failure counters** (`_partial`, see the comment above). -/
-theorem C08_idle_pass_drains_counters_partial (inj : BSt → Nat → BSt) (hq : QuietInj inj) (s : BSt)
-    (hidle : (populate inj s).2 = 0) (hc : ∀ i ∈ (populate inj s).1.registry, i ∈ (populate inj s).1.cache)
-    (i : Nat) (hi : i ∈ (poll inj s).registry) : ((poll inj s).th i).fail = 0 := by
-  rw [poll_idle inj s hidle] at hi ⊢
-  exact idleTail_clears hq _ hc i hi
+/-- **The cache covers the registry unless a thread registered since the last refresh** — in every reachable state
+    of every schedule (`CovK s`: `newFlag = false → registry ⊆ cache`). -/
+theorem C08_cache_covers_registry (s0 : BSt) (h0 : CovK s0) (ops : List Op) : CovK (runOps s0 ops) :=
+  runOps_closed CovK.closed ops s0 h0
+
+/-- **The idle pass drains the failure counters.** From any state satisfying the cache invariant (every reachable
+    state), a `_poll` whose read pass finds no event (`(populate inj s).2 = 0`), run with an injection runner that takes
+    no frontend step (`QuietInj`, e.g. the empty table), ends with `fail = 0` for every context still registered: the
+    read pass refreshed the cache, so `_check_failure_counter` visited every registered context, and nothing that
+    follows in the pass (emptiness check, context and logger clean-up) raises a counter. -/
+theorem C08_idle_pass_drains_counters (inj : BSt → Nat → BSt) (hq : QuietInj inj) (s : BSt) (hk : CovK s)
+    (hidle : (populate inj s).2 = 0) (i : Nat) (hi : i ∈ (poll inj s).registry) : ((poll inj s).th i).fail = 0 :=
+  poll_idle_clears hq s hk hidle i hi
 
 /-- the empty injection table takes no frontend step -/
 theorem C08_empty_table_quiet : QuietInj (runInj []) := runInj_nil_quiet
@@ -221,6 +223,44 @@ theorem C08_check_clears_counters (s : BSt) (i : Nat) (hi : i ∈ s.cache) :
     ((checkFailures (fun x _ => x) s).th i).fail = 0 := by
   rw [checkFailures_quiet]
   exact (cfFold_clears s.cache s).2.1 i hi
+
+/-- **At quiescence everything discarded has been reported** (dropping queue, repaired clean-up). Take any schedule
+    `ops` from a freshly started system and let the backend then make one poll with no frontend step inside it
+    (`Op.poll []`) that finds nothing to read (an idle pass). Afterwards every failure counter of every context ever
+    created is zero — registered ones were just reported, reclaimed ones had been reported before they were reclaimed —
+    and therefore `Σ discarded = reported`: every refused log call has been reported through the notifier, none twice,
+    none lost. -/
+theorem C08_quiescent_all_reported (s0 : BSt) (hf : Fresh s0) (hs : Started s0) (hreg : s0.registry = [])
+    (hd : s0.cfg.dropping = true) (hk : s0.cfg.cleanupKeepsUnreported = true) (ops : List Op)
+    (hgone : (runOps s0 ops).backendGone = false)
+    (hidle : (populate (runInj []) { runOps s0 ops with siteCnt := [] }).2 = 0) :
+    (∀ c ∈ ctrs (runOps s0 (ops ++ [.poll []])), c.1 = 0) ∧
+    ((ctrs (runOps s0 (ops ++ [.poll []]))).map (fun c => c.2.1)).sum = (runOps s0 (ops ++ [.poll []])).reported := by
+  have hcov0 : CovK s0 := fun _ i hi => by rw [hreg] at hi; cases hi
+  have hstep : runOps s0 (ops ++ [.poll []]) = poll (runInj []) { runOps s0 ops with siteCnt := [] } := by
+    have e1 : runOps s0 (ops ++ [.poll []]) = (applyOp (runOps s0 ops) (.poll [])).1 := by
+      unfold runOps; rw [List.foldl_append]; rfl
+    rw [e1]
+    show (if (runOps s0 ops).backendGone = true then ((runOps s0 ops), "noop")
+      else (poll (runInj []) { runOps s0 ops with siteCnt := [] }, "ev")).1 = _
+    rw [hgone]; rfl
+  have hK := runOps_closed InvK.closed (ops ++ [.poll []]) s0 (C08_fresh_reclaim_inv s0 hf hk)
+  have hcov : CovK ({ runOps s0 ops with siteCnt := [] } : BSt) :=
+    (C08_cache_covers_registry s0 hcov0 ops).of_same rfl rfl rfl
+  have hzero : ∀ c ∈ ctrs (runOps s0 (ops ++ [.poll []])), c.1 = 0 := by
+    intro c hc
+    simp only [ctrs, List.mem_map] at hc
+    obtain ⟨t, ht, rfl⟩ := hc
+    obtain ⟨i, hi, e⟩ := List.mem_iff_getElem.mp ht
+    have hth : t = (runOps s0 (ops ++ [.poll []])).th i := by rw [th_eq_getElem _ i hi, e]
+    rw [hth]
+    rcases hK.a.reg i hi with hr | hr
+    · rw [hstep] at hr ⊢
+      exact C08_idle_pass_drains_counters (runInj []) runInj_nil_quiet _ hcov hidle i hr
+    · exact hK.r.zero i hr
+  refine ⟨hzero, ?_⟩
+  have hsum := (C08_dropped_equals_reported_plus_pending s0 (C08_started_inv s0 hs) hd (ops ++ [.poll []])).2
+  rw [hsum, sum_map_const _ _ 0 hzero]; simp
 
 /-! ### witnesses: the two ways a drop count is lost with a reclaimed context -/
 
@@ -287,6 +327,13 @@ example :
     (applyOp (runOps (c08Init true true) (f17Sched.take 2)) (.front (.log 1 0 4 300 true))).2 = "id=0 ret=1 ev=1 bytes=338" ∧
     (applyOp (runOps (c08Init true true) (f17Sched.take 3)) (.front (.log 1 0 4 300 true))).2 = "id=1 ret=0 ev=1 bytes=0" := by
   decide
+
+/-- non-vacuity of the quiescence theorem: after the F24 schedule the next poll is idle (its read pass finds nothing),
+    and after it the two discarded statements are both reported -/
+example : (runOps (c08Init true true) f23Sched).backendGone = false ∧
+    (populate (runInj []) { runOps (c08Init true true) f23Sched with siteCnt := [] }).2 = 0 ∧
+    ((ctrs (runOps (c08Init true true) (f23Sched ++ [.poll []]))).map (fun c => c.2.1)).sum = 2 ∧
+    (runOps (c08Init true true) (f23Sched ++ [.poll []])).reported = 2 := by decide
 
 /-- non-vacuity of the never-both theorems: in the F17 schedule the second call (id 1) was refused; its id is unplaced
     and unwritten at the end, while id 0 was accepted and written once -/
